@@ -42,6 +42,8 @@ def check(chk):
     _state(chk)
     _protocol(chk)
     _named(chk)
+    _mi_levels(chk)
+    _pure_rebuild(chk)
     _alias(chk)
     _codec(chk)
     chk.floor("SERIAL.closure", 29)
@@ -388,6 +390,56 @@ def _named(chk, rule="SERIAL.named"):
                       why="the returned array is computed from a coordinate variable and keeps that coordinate's name: the serialiser (name in coords) stores it as "
                           "the coordinate, and the deserialised transformer carries the array's VALUES as its labels - scaling then aligns on nothing")
     chk.require(n >= 1, "no function returns an array computed from a coordinate (anchor of SERIAL.named vanished)")
+
+
+def _mi_levels(chk, rule="SERIAL.multiindex.levels"):
+    """a MultiIndex coordinate is stored flat and rebuilt on load from the level names recorded next to it: those names are
+    the index's own level names (`to_index().names`), not whatever coordinates happen to lie along the dimension - a
+    non-index coordinate recorded as a level becomes an extra dimension after unstacking"""
+    pm = chk.pm
+    ser = pm.cls("xeofs.preprocessing.transformer.Transformer").methods.get("_serialize_data")
+    des = pm.cls("xeofs.preprocessing.transformer.Transformer").methods.get("_deserialize_data_node")
+    chk.require(ser is not None, "Transformer._serialize_data vanished")
+    ff = FuncFacts.of(ser)
+    writes = [st for st in walk_no_nested(ser.node) if isinstance(st, ast.Assign) and isinstance(st.targets[0], ast.Subscript) and isinstance(st.targets[0].value, ast.Name)
+              and "multiindex" in st.targets[0].value.id.lower()]
+    if not writes:
+        # the mapping may be built in one expression
+        writes = [st for st in walk_no_nested(ser.node) if isinstance(st, ast.Assign) and isinstance(st.targets[0], ast.Name) and "multiindex" in st.targets[0].id.lower()
+                  and not isinstance(st.value, ast.Dict) or False]
+    chk.require(len(writes) >= 1, "Transformer._serialize_data: recording of MultiIndex level names vanished")
+    for st in writes:
+        ps = ff.paths(st.value, spine_only=False)
+        from_index = any(p.has_op("attr", "names") and (p.has_op("method", "to_index") or p.has_op("attr", "indexes") or p.has_op("method", "get_index")) for p in ps)
+        from_coords = any(p.has_op("attr", "coords") and not p.has_op("attr", "names") for p in ps)
+        chk.check(from_index and not from_coords, rule, ser, st, construct="recorded MultiIndex levels = names of the index",
+                  why="the level names recorded for a MultiIndex coordinate are not taken from the index itself (to_index().names): any other coordinate along that "
+                      "dimension is rebuilt as an index level on load, and results unstack into an extra dimension")
+    if des is not None:
+        ok = any(isinstance(c.func, ast.Attribute) and c.func.attr == "set_index" for c in calls_in(des)) or any(
+            isinstance(c.func, ast.Attribute) and c.func.attr == "set_index" for m in pm.cls("xeofs.preprocessing.transformer.Transformer").methods.values() for c in calls_in(m))
+        chk.check(ok, rule + ".rebuild", des, des.node, construct="deserialisation rebuilds the MultiIndexes (set_index)", why="recorded MultiIndexes are not rebuilt on load")
+
+
+def _pure_rebuild(chk):
+    """rebuilding a model from its tree restores what was saved and nothing else: the post-compute hook (mode re-sorting,
+    `sorted = True`) belongs to compute(), not to deserialisation - otherwise a model serialised before compute() comes
+    back in another mode order than the model it was made from"""
+    pm = chk.pm
+    base = pm.cls("xeofs.base_model.BaseModel")
+    hooks = ("_post_compute", "_sort_by_variance", "compute")
+    n = 0
+    for cls in [c for c in pm.classes.values() if base in c.mro]:
+        for nm in ("deserialize", "_deserialize_attrs", "load"):
+            m = cls.methods.get(nm)
+            if m is None:
+                continue
+            n += 1
+            bad = [c for c in calls_in(m) if isinstance(c.func, ast.Attribute) and c.func.attr in hooks and not (nm == "load" and c.func.attr == "compute")]
+            chk.check(not bad, "SERIAL.pure", m, bad[0] if bad else m.node, construct=f"{cls.name}.{nm} only restores saved state",
+                      why=f"{cls.name}.{nm} runs {bad[0].func.attr if bad else ''}(): a rebuilt model is finalised (re-sorted) although the saved one was not - "
+                          "results of the two differ by a permutation of the modes")
+    chk.require(n >= 2, "BaseModel deserialisation entry points vanished")
 
 
 def _alias(chk):
